@@ -40,6 +40,15 @@ def build_script(assertions, opts=None, want_model=None, extra=None, abstract=Fa
     lines.append('(check-sat)')
     if want_model:
         names = ' '.join('|%s|' % n for n in want_model if n in pr.vars)
+        # also the values chosen for sin/cos applications and pi, so that angle inputs can be made consistent with them
+        extra_names = []
+        for a in pr.apps:
+            k = T.lst[a[1]]
+            if k[1] in ('sin', 'cos'):
+                extra_names.append('|%s!%d|' % (k[1], a[1]))
+        if 'pi' in pr.vars and 'pi' not in want_model:
+            extra_names.append('|pi|')
+        names = (names + ' ' + ' '.join(extra_names)).strip()
         if names:
             lines.append('(get-value (%s))' % names)
     return '\n'.join(lines) + '\n', ax.groups, pr
